@@ -55,6 +55,9 @@ def step (s : St) (toks : List String) : St × List String :=
   | ["R", r, a] =>
     let s := setRep s r Doc.init
     ({ s with clocks := regSet s.clocks r (ChangeID.initial.setActor (parseNatD a)) }, ["ok"])
+  | ["SETACTOR", r, a] =>
+    -- `Document.SetActor`: the document's change id adopts the actor (vector untouched)
+    ({ s with clocks := regSet s.clocks r ((regGet s.clocks r).setActor (parseNatD a)) }, ["ok"])
   | ["CID", r, "local"] =>
     -- `Update`: the change gets `changeID.Next()` and the document adopts it
     let id := (regGet s.clocks r).next
